@@ -1,6 +1,6 @@
 SPECIFICATION Spec
 CONSTANTS
   MaxLen = 3
-  SignFix = TRUE
+  SignFix = FALSE
 INVARIANT RoundTrip
 CHECK_DEADLOCK FALSE
